@@ -116,6 +116,9 @@ def targets(op):
 
 
 def apply(imp, cls, op):
+    if op.get('own_importer'):
+        # a caller that makes an importer object of its own for this call (they all denote the one store)
+        imp = type(imp)()
     g = cls(graph_id=op['g'], importer=imp)
     o = op['op']
     if o == 'add_node':
@@ -336,6 +339,17 @@ def run(ctx):
                            {'op': 'add_node', 'g': to, 'nid': 'grown-' + rng.choice(NIDS), 'label': rng.choice(rawgraph.CLASSES),
                             'props': rawgraph.gen_props(rng, 2)}]
             ctx.count('hist:shrunk-graph-cloned-and-grown')
+        if rng.random() < 0.3:
+            # a store that holds nodes but not a single link, throughout the history
+            hist = [op for op in hist if op['op'] != 'add_link']
+            for op in hist:
+                if 'desc' in op:
+                    op['desc'] = dict(op['desc'], edges=[])
+            ctx.count('hist:store-without-links')
+        for op in hist:
+            if rng.random() < 0.25:
+                op['own_importer'] = True
+                ctx.count('op:through-an-importer-of-its-own')
         ctx.count('store:' + store)
         run_history(ctx, store, imp, cls, hist)
         if i < 1:
